@@ -468,30 +468,57 @@ def _auth_rules(ctx, R):
              "the only PATH_INFO values exempt from authentication are '/' "
              "and ''", 'literals %s other %s' % (sorted(set(lits)), bad),
              func=f)
-    # 401 answers
+    # 401 answers: decided per path through the middleware - a request
+    # that is let through (or gets a context) has an identity or asks for
+    # the root, whatever the shape of the test
+    from psa import pathval
     f = prog.func('placement.auth:PlacementKeystoneContext.__call__')
-    rets401 = [n for n in own_nodes(f.node) if isinstance(n, ast.Return)
-               and 'HTTPUnauthorized' in src(n)]
-    ok = False
-    found = 'no 401 return'
-    if len(rets401) == 1:
-        ifs = C.guarding_ifs(rets401[0], f.node)
-        if ifs and ifs[0][1] == 'body':
-            t = src(ifs[0][0].test)
-            found = t
-            ok = 'user_id is None' in t and 'not in' in t
-    R.ob('R16.4', 'context-401', ok,
-         'no user identity and a path other than the root => 401', found,
+    paths = [p for p in pathval.paths_of(f) if p.end != 'raise']
+
+    def is401(p):
+        last = p.stmts[-1] if p.stmts else None
+        return isinstance(last, ast.Return) and 'HTTPUnauthorized' in src(
+            last)
+
+    def identified(a, pol):
+        return (not pol) and isinstance(a, ast.Compare) and isinstance(
+            a.ops[0], ast.Is) and src(a.comparators[0]) == 'None' and \
+            isinstance(a.left, ast.Attribute) and a.left.attr == 'user_id'
+
+    def root_path(a, pol):
+        if not (pol and isinstance(a, ast.Compare) and isinstance(
+                a.ops[0], ast.In) and 'PATH_INFO' in src(a.left)):
+            return False
+        c = a.comparators[0]
+        return isinstance(c, (ast.List, ast.Tuple, ast.Set)) and all(
+            isinstance(x, ast.Constant) and x.value in ('/', '')
+            for x in c.elts)
+
+    def allowed(a, pol):
+        return identified(a, pol) or root_path(a, pol)
+
+    def stores_ctx(p):
+        return [st for st, tgt, _s, _v in p.stores
+                if 'placement.context' in src(tgt)]
+    p401 = [p for p in paths if is401(p)]
+    through = [p for p in paths if not is401(p)]
+    bad = [p for p in through if not pathval.holds(p, allowed)]
+    R.ob('R16.4', 'context-401', bool(p401) and bool(through) and not bad,
+         'no user identity and a path other than the root => 401 (every '
+         'path through the middleware that does not answer 401 has decided '
+         'that there is an identity or that the path is the root)',
+         'paths: %d answer 401, %d pass; undecided: %s' % (
+             len(p401), len(through), [p.cond_srcs() for p in bad][:2]),
          func=f)
-    # the context is stored only after that test
-    stores = [n for n in own_nodes(f.node) if isinstance(n, ast.Assign)
-              and "placement.context" in src(n.targets[0])]
-    oks = len(stores) == 1 and len(rets401) == 1 and C.guarding_ifs(
-        rets401[0], f.node) and cfgmod.cfg_of(f).dominates(
-            C.guarding_ifs(rets401[0], f.node)[0][0], stores[0])
+    # the context is stored only on such paths
+    n_st = sum(len(stores_ctx(p)) for p in through)
+    oks = n_st >= 1 and all(stores_ctx(p) for p in through) and not any(
+        stores_ctx(p) for p in p401) and not bad
     R.ob('R16.4', 'context-set-after-401-test', bool(oks),
-         "environ['placement.context'] is set after the 401 test",
-         '%d stores' % len(stores), func=f)
+         "environ['placement.context'] is set on every path that passes the "
+         "401 test and on no path that answers 401",
+         '%d stores on passing paths, %d on 401 paths' % (
+             n_st, sum(len(stores_ctx(p)) for p in p401)), func=f)
     f = prog.func('placement.auth:NoAuthMiddleware.__call__')
     rets401 = [n for n in own_nodes(f.node) if isinstance(n, ast.Return)
                and 'HTTPUnauthorized' in src(n)]
